@@ -22,6 +22,8 @@ type ScriptedCache struct {
 	RefuseEvict map[int64]bool
 	Binds       [][2]int64 // task, node
 	Evicts      []int64
+	OnBind      func(task, node int64)
+	OnEvict     func(task int64)
 }
 
 func (c *ScriptedCache) Snapshot() *api.ClusterInfo { return c.Snap }
@@ -33,6 +35,9 @@ func (c *ScriptedCache) AddBindTask(ctx *cache.BindContext) error {
 		return fmt.Errorf("scripted: bind of t%d refused", id)
 	}
 	c.Binds = append(c.Binds, [2]int64{id, NodeRef(ctx.TaskInfo.NodeName)})
+	if c.OnBind != nil {
+		c.OnBind(id, NodeRef(ctx.TaskInfo.NodeName))
+	}
 	return nil
 }
 func (c *ScriptedCache) Evict(t *api.TaskInfo, reason string) error {
@@ -41,6 +46,9 @@ func (c *ScriptedCache) Evict(t *api.TaskInfo, reason string) error {
 		return fmt.Errorf("scripted: eviction of t%d refused", id)
 	}
 	c.Evicts = append(c.Evicts, id)
+	if c.OnEvict != nil {
+		c.OnEvict(id)
+	}
 	return nil
 }
 
@@ -52,6 +60,9 @@ type Recorder struct {
 	Log      [][4]int64 // (1 = allocate / 0 = deallocate, task, status key, node) as seen by the callback
 	ErrFor   map[int64]bool
 	JobReady bool
+	// NoJobReady: do not register the scripted JobReady function (the real gang plugin decides)
+	NoJobReady bool
+	OnEvent    func(alloc int64, t *api.TaskInfo)
 }
 
 const RecorderName = "verif-recorder"
@@ -75,6 +86,9 @@ func (p *recorderPlugin) OnSessionOpen(ssn *framework.Session) {
 			if r.ErrFor[id] {
 				e.Err = fmt.Errorf("scripted: allocate callback fails for t%d", id)
 			}
+			if r.OnEvent != nil {
+				r.OnEvent(1, e.Task)
+			}
 		},
 		DeallocateFunc: func(e *framework.Event) {
 			j := ParseID(string(e.Task.Job)[3:])
@@ -83,9 +97,14 @@ func (p *recorderPlugin) OnSessionOpen(ssn *framework.Session) {
 			}
 			r.Share[j].SubWithoutAssert(e.Task.Resreq)
 			r.Log = append(r.Log, [4]int64{0, ParseID(string(e.Task.UID)), StatusKey(e.Task.Status), NodeRef(e.Task.NodeName)})
+			if r.OnEvent != nil {
+				r.OnEvent(0, e.Task)
+			}
 		},
 	})
-	ssn.AddJobReadyFn(RecorderName, func(obj interface{}) bool { return r.JobReady })
+	if !r.NoJobReady {
+		ssn.AddJobReadyFn(RecorderName, func(obj interface{}) bool { return r.JobReady })
+	}
 }
 func (p *recorderPlugin) OnSessionClose(ssn *framework.Session) {}
 
@@ -110,6 +129,8 @@ type World struct {
 
 var mock *cache.SchedulerCache
 
+func newMock() *cache.SchedulerCache { return cache.NewDefaultMockSchedulerCache("verif") }
+
 func yes() *bool { b := true; return &b }
 
 // NewWorld builds jobs/nodes with the real constructors (NewTaskInfo,
@@ -117,7 +138,7 @@ func yes() *bool { b := true; return &b }
 // the recorder plugin as the only plugin.
 func NewWorld(nodes []NodeSpec, jobs []JobSpec, tasks []TaskSpec) *World {
 	if mock == nil {
-		mock = cache.NewDefaultMockSchedulerCache("verif")
+		mock = newMock()
 	}
 	w := &World{Tasks: map[int64]*api.TaskInfo{}, TSpec: map[int64]TaskSpec{}, NodesP: map[int64]*api.NodeInfo{},
 		NSpec: map[int64]NodeSpec{}, Stmts: map[int64]*framework.Statement{}, Saved: map[int64]*framework.Statement{}}
@@ -211,6 +232,18 @@ func (w *World) taskIDs() []int64 {
 
 // EncState is the model's eState.
 func (w *World) EncState() []int64 {
+	out := w.encStateNoStmts()
+	for i := int64(1); i <= 3; i++ {
+		ops := w.Stmts[i].VerifOps()
+		out = append(out, int64(len(ops)))
+		for _, o := range ops {
+			out = append(out, int64(o.Kind), ParseID(string(o.Task.UID)))
+		}
+	}
+	return out
+}
+
+func (w *World) encStateNoStmts() []int64 {
 	out := []int64{}
 	ids := w.taskIDs()
 	out = append(out, int64(len(ids)))
@@ -232,13 +265,6 @@ func (w *World) EncState() []int64 {
 	for _, j := range sids {
 		out = append(out, j)
 		out = append(out, EncRes(w.Rec.Share[j])...)
-	}
-	for i := int64(1); i <= 3; i++ {
-		ops := w.Stmts[i].VerifOps()
-		out = append(out, int64(len(ops)))
-		for _, o := range ops {
-			out = append(out, int64(o.Kind), ParseID(string(o.Task.UID)))
-		}
 	}
 	return out
 }
